@@ -53,6 +53,10 @@ def gen_case(rng, params, idx):
     types_as_args = target != "mtm" and rng.random() < 0.25
     if types_as_args:
         pool = pool + [["Ty", "int"], ["Ty", rng.choice([s["name"] for s in hier])], ["Ty", "Shape"], "ABCMeta", "ABCMeta"]
+    # a *sibling* linkback copy with a method of its own whose first parameter is called c1: registering on the parent
+    # a method whose second parameter is called c1 is fine for the parent and for the copy under test, but the sibling
+    # cannot be rebuilt with it (one name at two positions) - the change must still reach the copy under test
+    sibling = target == "ovld_lb" and npos == 2 and rng.random() < 0.5
     ops, live, mid = [], [], 0
     nops = rng.randint(3, 25)
     last_sig = None
@@ -67,6 +71,8 @@ def gen_case(rng, params, idx):
                 pos[rng.randrange(n)]["t"] = rng.choice([["L", 0], ["L", 1], ["L", 0, 1], ["D", "int", "even"], ["D", "object", "truthy"]])
             if target != "mtm" and rng.random() < 0.1 and n >= 1:
                 pos[-1] = dict(pos[-1], opt=True)
+            if sibling and n == 2 and rng.random() < 0.35:
+                pos[1] = dict(pos[1], n="c1")
             m = {"mid": mid, "pos": pos, "kw": [], "prio": rng.choice([0, 0, 0, 1]),
                  "kind": rng.choice(["leaf", "leaf", "next"]) if target != "mtm" else "leaf"}
             ops.append(["reg", m])
@@ -94,7 +100,7 @@ def gen_case(rng, params, idx):
         cls_probes = ["@int", "@Shape", "@Hashable", "@bool"] + ["@" + n for n in names[:3]]
         probes += [tuple(rng.choice(cls_probes) if j == k else rng.choice(names) for j in range(npos))
                    for k in range(npos) for _ in range(6)]
-    return {"target": target, "hier": hier, "npos": npos, "ops": ops, "probes": [list(p) for p in probes]}
+    return {"target": target, "hier": hier, "npos": npos, "ops": ops, "probes": [list(p) for p in probes], "sibling": sibling}
 
 
 def _val(env, name):
@@ -115,10 +121,18 @@ def _check_ovld(spec, res, env):
         return fn
 
     H = Ovld()
+    S = None
+    if spec.get("sibling"):
+        S = H.copy(linkback=True)       # derived *before* the copy under test: it is brought up to date first
     # what is called: the function itself, or a linkback copy of it (the parent is then never called)
     C = H.copy(linkback=True) if spec["target"] == "ovld_lb" else H
     if C is not H:
         res.count("histories_ovld_linkback_child")
+    if S is not None:
+        sfn, sf = make_method({"mid": 900, "pos": [{"n": "c1", "t": "bytes"}]}, env, vf, ["return ('m', 900)"], tag="c05", shared_ns=ns)
+        files.append(sf)
+        S.register(sfn)
+        res.count("histories_with_sibling_copy")
     hfn = {}
     live = []
     used = False
@@ -154,7 +168,17 @@ def _check_ovld(spec, res, env):
                     nontrivial = True
             fn = mk(m, vf, ns)
             hfn[m["mid"]] = fn
-            H.register(fn, priority=m.get("prio", 0))
+            if S is not None:
+                try:        # keep the sibling built (while it still can be), so that changes are pushed into it
+                    S(b"x")
+                except Exception:  # noqa: BLE001
+                    pass
+            try:
+                H.register(fn, priority=m.get("prio", 0))
+            except TypeError:
+                if S is None or fn not in H.defns.values():
+                    raise
+                res.count("register_raised_for_the_sibling_only")      # the parent did take the method
             live.append(m)
         else:
             res.count("unreg_ops")
